@@ -13,8 +13,8 @@ import time
 from pathlib import Path
 
 NAME = 'a' * 40                      # a legal (if dull) function name
-STARS = 20
-PATTERN = 'mod.' + '*a' * STARS + '*b'   # 45 characters; cannot match: the name has no 'b'
+STARS = 14
+PATTERN = 'mod.' + '*a' * STARS + '*b'   # 34 characters; cannot match: the name has no 'b'
 TIMEOUT = 40
 
 
@@ -46,7 +46,7 @@ def main() -> None:
 
     # growth of the time pydoctor needs, on smaller instances of the same pattern family
     growth = []
-    for stars in (6, 8, 10, 12):
+    for stars in (4, 6, 8):     # (10 stars already take about a minute, 12 stars more than 6 minutes)
         pat = 'mod.' + '*a' * stars + '*b'
         out = subprocess.run([sys.executable, __file__, '--child', tmp, pat],
                              capture_output=True, text=True, timeout=600).stdout.split()
